@@ -6,6 +6,7 @@ Models: `Model/Vint.lean`, `Model/Cql.lean`, `Model/Codec.lean`.
 import ScyllaVerif.Model.Codec
 import ScyllaVerif.Proofs.Vint
 import ScyllaVerif.Proofs.CodecEnc
+import ScyllaVerif.Proofs.CodecDec
 
 namespace ScyllaVerif.Props.C01
 open ScyllaVerif.Vint ScyllaVerif.Cql ScyllaVerif.Codec
@@ -76,7 +77,7 @@ theorem null_cell_decodes (u : Bytes → Bool) (t : CqlTy) (rest : Bytes) :
 
 /-- **Implementation = specification.**  For every type, every value, both writer modes and every buffer
 the serializer is appended to: unless the specification has no encoding at all for the value (a bare
-null / unset vector element — `bareNullInVector`, impossible for a `CqlValue`, see `encSpec_dyn_defined`),
+null / unset vector element — `bareNullInVector`; a `CqlValue` cannot contain one),
 the placeholder / back-patch / shared-buffer implementation appends exactly the bytes of the CQL v4
 definition `length ++ content` — and fails with the same error kind when that fails. -/
 theorem encImpl_eq_encSpec (t : CqlTy) (v : CqlVal) (ws : Bool) (buf : Bytes)
@@ -97,6 +98,59 @@ example :
       0, 0, 0, 0x0d, 0, 0, 0, 1, 0, 0, 0, 5, 1, 0x61, 2, 0x62, 0x63] ∧
     encImpl t v true [0xaa] = (encSpec t v true).map ([0xaa] ++ ·) := by
   constructor <;> rfl
+
+/-- Corollary: whenever the protocol defines the bytes of `v`, the serializer appends exactly them. -/
+theorem encImpl_of_encSpec_ok (t : CqlTy) (v : CqlVal) (ws : Bool) (buf s : Bytes)
+    (h : encSpec t v ws = .ok s) : encImpl t v ws buf = .ok (buf ++ s) := by
+  have := encImpl_eq_encSpec t v ws buf (by rw [h]; intro e; cases e)
+  rw [this, h]
+
+/-! ### round trip -/
+
+/-- **Round trip (content level).**  (`_partial`: the full statement — every value that has the shape of
+the type — is false of the current tree, see the counterexamples at the end of the file; the domain here,
+`wfVal`, excludes exactly the shapes F1, F2, F8, F9 and types that are not CQL types.)  For every type, every value well-formed for it (`wfVal`: decidable —
+shape of the type, UTF-8 / ASCII text, `time` within a day, non-empty varint, and none of the shapes F1, F2,
+F8, F9 below), the content bytes the protocol defines decode to the value's normal form `pad t v`
+(short tuples / UDTs padded with nulls, UDT fields in type order) — at every nesting depth; moreover the
+content is zero bytes long only for `empty` and the empty string / blob. -/
+theorem roundtrip_partial (u : Bytes → Bool) (t : CqlTy) (v : CqlVal) (body : Bytes)
+    (hw : wfVal u t v = true) (he : encSpec t v false = .ok body) (hlen : body.length < 2 ^ 64) :
+    decVal u t body = .ok (pad t v) ∧ (body = [] → zeroLenBody v = true) :=
+  CodecDec.rt u t v body hw he hlen
+
+/-- **Round trip (cell level, through the real serializer).**  A null or well-formed value whose cell the
+protocol defines: the back-patching serializer appends exactly that cell to any buffer, and reading the cell
+back (with anything following it) gives `pad t v`.  Cells above `i32::MAX` bytes are `SizeOverflow`
+(`size_overflow_*`), so `encSpec … = .ok cell` is exactly "the value fits". -/
+theorem roundtrip_cell_partial (u : Bytes → Bool) (t : CqlTy) (v : CqlVal) (cell rest buf : Bytes)
+    (hw : wfCell u t v = true) (hs : encSpec t v true = .ok cell) :
+    encImpl t v true buf = .ok (buf ++ cell) ∧ decBytes u t (cell ++ rest) = .ok (pad t v) := by
+  refine ⟨encImpl_of_encSpec_ok t v true buf cell hs, ?_⟩
+  unfold wfCell at hw
+  simp only [Bool.or_eq_true] at hw
+  rcases hw with hn | hwf
+  · cases v <;> simp [isNullVal] at hn
+    rw [encSpec] at hs
+    simp only [viewOf, if_true] at hs
+    cases hs
+    simp only [decBytes, CodecDec.readCqlBytes_null, decCell, CodecDec.pad_null]
+  · obtain ⟨body, hb, hlen, rfl⟩ := CodecDec.wf_cell u t v cell hwf hs
+    have hl : body.length < 2 ^ 64 := by
+      have := CodecDec.i32Max_lt
+      omega
+    simp only [decBytes, CodecDec.readCqlBytes_cell body rest hlen, decCell]
+    exact (CodecDec.rt u t v body hwf hb hl).1
+
+-- non-vacuity: `map<text, tuple<int, list<vector<text,2>>>>` with a null tuple field and a short tuple
+set_option maxRecDepth 100000 in
+example :
+    let t : CqlTy := .map (.native .text) (.tuple [.native .int, .list (.vector (.native .text) 2), .native .uuid])
+    let v : CqlVal := .map [(.text [0x61, 0x62], .tuple [.null, .list [.vector [.text [0x61], .text [0x62, 0x63]]]])]
+    wfCell (fun _ => true) t v = true ∧
+    pad t v = .map [(.text [0x61, 0x62], .tuple [.null, .list [.vector [.text [0x61], .text [0x62, 0x63]]], .null])] ∧
+    (∃ cell, encSpec t v true = .ok cell ∧ decBytes (fun _ => true) t cell = .ok (pad t v)) := by
+  refine ⟨by rfl, by rfl, _, rfl, by rfl⟩
 
 /-! ### size overflow (error branch) -/
 
@@ -133,7 +187,7 @@ Full statement of the property (false of the current code, kept here on purpose)
   theorem carrier_factor_full : every typed carrier value x, embedded as v, satisfies
       encImpl t v true [] = (encSpec t v true)          -- including `Vec<Option<T>>` bound to a vector
 
-The proved statement is `roundtrip` below, on the domain `wfVal`, which excludes exactly the shapes F1, F2,
+The proved statements are `roundtrip_partial` / `roundtrip_cell_partial` above, on the domain `wfVal`, which excludes exactly the shapes F1, F2,
 F8, F9 (plus degenerate types that are not CQL types).  Their witnesses, replayed on the real code by
 `corpus/C01/known_findings.case`: -/
 
